@@ -116,7 +116,7 @@ def expected_regions(deck, P, ctx):
         for label, reg, mat, rho in rf.chains(cid, P):
             lab = dk.chain_label(label)
             r = n.And(reg, conv)
-            name = dk.comp_name(mat, rho)
+            name = dk.comp_key(mat, rho)
             if lab in out:
                 out[lab] = (n.Or(out[lab][0], r), out[lab][1] | {name})
             else:
@@ -218,7 +218,7 @@ def compare(deck, path, pre, prop, flags=None, what=('regions', 'compo', 'valid'
         if 'compo' in what and t4.has_geomcomp and lab in exp:
             for vid in vols:
                 res['obligations'] += 1
-                if names.get(vid) in exp[lab][1]:
+                if dk.comp_key_of_name(names.get(vid)) in exp[lab][1]:
                     res['discharged'] += 1
                 else:
                     # only a violation if the volume is non-empty
@@ -308,6 +308,6 @@ def replay_compare(case, t4, P):
             bad.append('label %s: the point lies in %d volumes %s' % (list(lab), len(inside), inside))
         if want and inside and t4.has_geomcomp:
             for v in inside:
-                if names.get(v) not in exp[lab][1]:
+                if dk.comp_key_of_name(names.get(v)) not in exp[lab][1]:
                     bad.append('volume %d is attached to %s, the owning cell has %s' % (v, names.get(v), sorted(exp[lab][1])))
     return bad
